@@ -22,6 +22,14 @@ class Gen:
         # lived there).  One chunk of cases in six runs in this mode; G3D_GEN_AXIS=1 / 0 forces it on / off.
         env = os.environ.get('G3D_GEN_AXIS')
         self.axis = (env == '1') if env in ('0', '1') else (rng.random() < 1 / 6)
+        # tiny mode (one chunk in eight; implies axis mode): every coordinate comes from {-2, -1, 0, 1}.  In this corner of the
+        # lattice distinct points / planes / polygons with EQUAL CPython hashes abound (hash(-1) == hash(-2)), and coincidences of
+        # every kind are frequent; all operations of one chunk run in one process, so state keyed by hashes or leaking between
+        # calls meets its collision.  G3D_GEN_TINY=1 / 0 forces it on / off.
+        env = os.environ.get('G3D_GEN_TINY')
+        self.tiny = (env == '1') if env in ('0', '1') else (rng.random() < 1 / 8)
+        if self.tiny:
+            self.axis = True
 
     def _axis_vecs(self):
         """two different signed, scaled coordinate axes"""
@@ -34,6 +42,8 @@ class Gen:
     # ---------------------------------------------------------------- primitives
     def coord(self, span=None):
         span = span or self.span
+        if self.tiny:
+            return F(self.R.choice([-2, -1, -1, 0, 1]))
         if self.axis:
             return F(self.R.randint(-min(span, 3), min(span, 3)))
         den = self.R.choice([1, 1, 1, 2, 4])
@@ -43,9 +53,13 @@ class Gen:
         return (self.coord(span), self.coord(span), self.coord(span))
 
     def ipt(self, lo=-3, hi=3):
+        if self.tiny:
+            lo, hi = max(lo, -2), min(hi, 1)
         return V(self.R.randint(lo, hi), self.R.randint(lo, hi), self.R.randint(lo, hi))
 
     def dirv(self, m=3):
+        if self.tiny:
+            m = 1
         while True:
             v = V(self.R.randint(-m, m), self.R.randint(-m, m), self.R.randint(-m, m))
             if not is0(v):
@@ -109,8 +123,8 @@ class Gen:
         return w
 
     # ---------------------------------------------------------------- flats in a mode relative to a frame
-    MODES = ['free', 'on_line', 'in_plane', 'through_o', 'parallel', 'at_o']
-    WEIGHTS = [10, 28, 22, 18, 12, 10]
+    MODES = ['free', 'on_line', 'in_plane', 'through_o', 'parallel', 'at_o', 'near_parallel']
+    WEIGHTS = [10, 28, 22, 18, 12, 10, 6]
 
     def flat(self, kind, fr, mode):
         R = self.R
@@ -141,6 +155,18 @@ class Gen:
             p = fr['o']
             d = mul(self.scale(), fr['d'])
             q = add(p, mul(R.choice([F(1), F(2), F(-1), F(-1, 2), F(3)]), fr['d']))
+        elif mode == 'near_parallel':
+            # within a few degrees of the frame line (resp. of the frame normal, for planes) but clearly not parallel
+            # (relative margin > 1e-3): 4 d + e with e a quarter / half axis step -- small-angle shortcuts, ill-conditioned solves
+            base = fr['n'] if kind == 'PL' else fr['d']
+            while True:
+                e = [F(0)] * 3
+                e[R.randrange(3)] = R.choice([F(1, 4), F(1, 2), F(-1, 4), F(-1, 2), F(1)])
+                d = add(mul(F(4), base), tuple(e))
+                if not is0(cross(d, base)):
+                    break
+            p = self.on_line(fr) if R.random() < 0.5 else self.pt()
+            q = add(p, mul(R.choice([F(1, 4), F(1, 2), F(-1, 4)]), d))
         else:
             raise ValueError(mode)
         if kind == 'P':
@@ -152,7 +178,7 @@ class Gen:
         if kind == 'S':
             if q == p:
                 q = add(p, d)
-            if mode in ('on_line', 'parallel', 'at_o') or (mode == 'through_o' and par(sub(q, p), d)) or mode == 'in_plane' or mode == 'free':
+            if mode in ('on_line', 'parallel', 'at_o', 'near_parallel') or (mode == 'through_o' and par(sub(q, p), d)) or mode == 'in_plane' or mode == 'free':
                 return ('S', p, q)
             return ('S', p, add(p, d))
         if kind == 'PL':
@@ -169,6 +195,8 @@ class Gen:
                 return ('PL', fr['o'], d)
             if mode == 'at_o':        # plane through the frame point, normal along the frame line (perpendicular to it)
                 return ('PL', fr['o'], d)
+            if mode == 'near_parallel':
+                return ('PL', p, d)
             if mode == 'parallel':    # parallel to the frame plane, or to the frame line
                 if R.random() < 0.5:
                     return ('PL', p, mul(self.scale(), fr['n']))
@@ -246,7 +274,7 @@ class Gen:
             if is0(cross(u, v)):
                 continue
             k = R.randint(nmin, nmax + 2)
-            ab = list({(R.randint(-3, 3), R.randint(-3, 3)) for _ in range(k)})
+            ab = list({(R.randint(-2, 1), R.randint(-2, 1)) for _ in range(k)}) if self.tiny else list({(R.randint(-3, 3), R.randint(-3, 3)) for _ in range(k)})
             h = E._hull2(ab)
             if len(h) < max(3, nmin) or len(h) > nmax:
                 continue
@@ -285,6 +313,8 @@ class Gen:
     def hull_body(self, nmin=4, nmax=8, lo=-3, hi=3, den=1):
         R = self.R
         while True:
+            if self.tiny:
+                lo, hi, den = -2, 1, 1
             pts = [tuple(F(R.randint(lo * den, hi * den), den) for _ in range(3)) for _ in range(R.randint(nmin, nmax))]
             fs = E.hull_faces(pts)
             if fs is None:
@@ -298,6 +328,19 @@ class Gen:
         """affine lattice image of a box / prism / pyramid / octahedron / tetrahedron"""
         R = self.R
         kind = R.choice(['box', 'prism', 'pyramid', 'octa', 'tetra'])
+        if R.random() < (0.25 if self.tiny else 0.04):
+            # the unit cube [-2,-1] x [0,1]^2 (up to the axis): its opposite faces, and four pairs of its vertices, hash alike
+            ax = R.randrange(3)
+            vs = []
+            for c in (-2, -1):
+                for u in (0, 1):
+                    for w in (0, 1):
+                        p = [F(u), F(w)]
+                        p.insert(ax, F(c))
+                        vs.append(tuple(p))
+            fs = E.hull_faces(vs)
+            if fs is not None:
+                return fs, 'twin-cube'
         if kind == 'box':
             base = [V(x, y, z) for x in (0, 1) for y in (0, 1) for z in (0, 1)]
         elif kind == 'prism':
@@ -316,7 +359,7 @@ class Gen:
             if E.det3(*M) == 0:
                 continue
             t = self.ipt(-2, 2)
-            k = R.choice([F(1), F(1), F(1, 2), F(2)])
+            k = F(1) if self.tiny else R.choice([F(1), F(1), F(1, 2), F(2)])
             pts = [add(t, mul(k, add(add(mul(p[0], M[0]), mul(p[1], M[1])), mul(p[2], M[2])))) for p in base]
             if max(abs(c) for p in pts for c in p) > 9:
                 continue
